@@ -434,22 +434,113 @@ def stage_copier(ctx, n):
             ctx.sample({'copier': {'p': p, 'source_len': len(F), 'ranges': ranges,
                                    'steps': [step_to_json(s) for s in steps][:6], 'result': res[0]}})
     ty = 'Z * Z * Z * bool * list (Z * Z) * list (nat * creply) * list (Z * Z) * cstatus * bytes'
-    bad = ctx.coq_cases('copier', IMPORTS, 'chk_copier', cases, ty=ty)
-    variant = 'as in the snapshot (C12_sparse_partial / C12_sparse_trailing_hole_refuted apply)'
+    # /repo carries the repair of the sparse copy (model parameter c_fix = true); a tree without it is still
+    # recognised (snapshot model) so that the trailing-hole defect is reported by the oracle, not as a broken model
+    bad = ctx.coq_cases('copier', IMPORTS, 'chk_copier_fixed', cases, ty=ty)
+    variant = 'repaired sparse copy (C12_sparse_repaired, C12_sparse_repaired_total apply)'
     if bad:
-        # the code may carry the repair of the sparse copy (destination extended to total_bytes): then it
-        # must agree with the repaired model on every case without malformed replies
-        cases2 = [c for c, h in zip(cases, case_honest) if h]
-        bad2 = ctx.coq_cases('copier_repaired', IMPORTS, 'chk_copier_fixed', cases2, ty=ty)
+        bad2 = ctx.coq_cases('copier_snapshot_model', IMPORTS, 'chk_copier', cases, ty=ty)
         if bad2 == [] and all(case_sparse[i] for i in bad):
-            variant = 'repaired sparse copy (C12_sparse_repaired applies)'
-            ctx.cov['correspondence']['copier']['note'] = 'mismatches are against the unrepaired model; all cases agree with the repaired model'
+            variant = 'sparse copy without the repair (C12_sparse_partial / C12_sparse_trailing_hole_refuted apply)'
+            ctx.cov['correspondence']['copier']['note'] = 'mismatches are against the repaired model; all cases agree with the snapshot model'
         else:
             ctx.broke('correspondence:copier', f'{len(bad)} of {len(cases)} cases differ; first: {cases[bad[0]][:1500]}')
     ctx.cov['oracle']['copier_variant'] = variant
     for need in ('short', 'eof', 'err', 'short_source', 'malformed'):
         if need not in seen:
             ctx.broke('vacuity:copier-' + need, 'no copier case exercised ' + need)
+
+
+# ---------------------------------------------------------------------------------------------
+# stage 1b: every schedule of small configurations (all completion orders x all short counts)
+
+class Enumerated:
+    """Honest policy whose choices follow `prefix` and then take the first alternative; the trace of
+    (choice, number of alternatives) lets the caller step to the next schedule in depth-first order."""
+
+    def __init__(self, F, kind, prefix):
+        self.F, self.kind, self.prefix = F, kind, list(prefix)
+        self.trace = []
+
+    def choose(self, n):
+        k = len(self.trace)
+        c = self.prefix[k] if k < len(self.prefix) else 0
+        c = min(c, n - 1)
+        self.trace.append((c, n))
+        return c
+
+    def __call__(self, out):
+        i = self.choose(len(out))
+        req = out[i]
+        E = len(self.F)
+        if req.offset >= E:
+            return i, (('eof',) if self.kind == 'r' else ('data', b''))
+        avail = min(req.size, E - req.offset)
+        c = 1 + self.choose(avail)
+        return i, ('data', self.F[req.offset:req.offset + c])
+
+
+def next_prefix(trace):
+    t = list(trace)
+    while t:
+        c, n = t.pop()
+        if c + 1 < n:
+            return [x for x, _ in t] + [c + 1]
+    return None
+
+
+def stage_exhaustive(ctx, limit):
+    configs = [('r', 2, 2, 0, 5, 4), ('r', 2, 3, 1, 6, 5), ('s', 2, 2, 0, 5, 5), ('s', 2, 2, 0, 5, 3), ('r', 3, 2, 0, 7, 9)]
+    if ctx.tier == 'thorough':
+        configs += [('r', 1, 4, 0, 5, 4), ('r', 2, 3, 0, 8, 7), ('s', 3, 3, 0, 9, 9), ('s', 2, 3, 0, 7, 5)]
+    rcases, ccases = [], []
+    info = []
+    for kind, bs, mx, start, size, E in configs:
+        F = bytes(range(1, E + 1))
+        prefix, n, complete = [], 0, False
+        while prefix is not None and n < limit:
+            pol = Enumerated(F, kind, prefix)
+            if kind == 'r':
+                p = {'bs': bs, 'mx': mx, 'start': start, 'size': size}
+                io, steps, res, stuck = run_reader_case(p, pol)
+                bad = reader_oracle(p, F, steps, res, stuck)
+                if bad:
+                    ctx.failing_input(f'_SFTPFileReader(block_size={bs}, max_requests={mx}, offset={start}, size={size}) on a '
+                                      f'{E}-byte file: {bad}',
+                                      {'kind': 'reader', 'p': p, 'F': F.hex(), 'batched': False,
+                                       'steps': [step_to_json(x) for x in steps]})
+                if not stuck:
+                    rcases.append('(%d, %d, %d, %d, %s, %s, %s)' % (bs, mx, start, size, coq_steps('r', steps),
+                                                                    coq_pairs(io.sent()), coq_result(res)))
+            else:
+                p = {'bs': bs, 'mx': mx, 'total': size, 'sparse': False}
+                io, steps, res, stuck = run_copier_case(p, [], pol)
+                bad = copier_oracle(p, F, io, steps, res, stuck)
+                if bad:
+                    ctx.failing_input(f'_SFTPFileCopier(block_size={bs}, max_requests={mx}, total_bytes={size}, sparse=False, '
+                                      f'source of {E} bytes): {bad}',
+                                      {'kind': 'copier', 'p': p, 'F': F.hex(), 'ranges': [], 'layout': None,
+                                       'steps': [step_to_json(x) for x in steps]})
+                if not stuck:
+                    ccases.append('(%d, %d, %d, false, [], %s, %s, %s, %s)' % (
+                        bs, mx, size, coq_steps('s', steps), coq_pairs(io.sent()),
+                        'COk' if res[0] == 'done' else 'CFail', zl(bytes(io.dst))))
+            ctx.note_case(('exh', kind, bs, mx, start, size, E, tuple(c for c, _ in pol.trace)), nontrivial=len(steps) >= 2)
+            n += 1
+            prefix = next_prefix(pol.trace)
+        complete = prefix is None
+        ctx.count('exhaustive.schedules', n)
+        info.append({'op': 'read' if kind == 'r' else 'copy', 'block_size': bs, 'max_requests': mx, 'start': start,
+                     'size': size, 'file_len': E, 'schedules': n, 'all_schedules_enumerated': complete})
+    ctx.cov['exhaustive'] = info
+    bad = ctx.coq_cases('reader_exhaustive', IMPORTS, 'chk_reader', rcases,
+                        ty='Z * Z * Z * Z * list (nat * rreply) * list (Z * Z) * result bytes')
+    if bad:
+        ctx.broke('correspondence:reader_exhaustive', f'{len(bad)} of {len(rcases)} differ; first: {rcases[bad[0]][:1200]}')
+    bad = ctx.coq_cases('copier_exhaustive', IMPORTS, 'chk_copier', ccases,
+                        ty='Z * Z * Z * bool * list (Z * Z) * list (nat * creply) * list (Z * Z) * cstatus * bytes')
+    if bad:
+        ctx.broke('correspondence:copier_exhaustive', f'{len(bad)} of {len(ccases)} differ; first: {ccases[bad[0]][:1200]}')
 
 
 # ---------------------------------------------------------------------------------------------
@@ -870,7 +961,7 @@ async def e2e(ctx, tmp, replay=None):
         sftp = await conn.start_sftp_client()
         install_jitter(sftp, random.Random(rng.getrandbits(64)), stats)
         thorough = ctx.tier == 'thorough'
-        n_xfer = 70 if thorough else 22
+        n_xfer = 240 if thorough else 22
         serial = 0
 
         def reset(**kw):
@@ -977,7 +1068,7 @@ async def e2e(ctx, tmp, replay=None):
         if fs_supports_holes(srv):
             layouts = ['DHHD', 'HDDH', 'DHHH', 'HHHH', 'HDHDHD', 'D', 'DH' * 140, 'HD' * 3 + 'HH']
             if thorough:
-                layouts += [''.join(rng.choice('DH') for _ in range(rng.randint(1, 12))) for _ in range(12)]
+                layouts += [''.join(rng.choice('DH') for _ in range(rng.randint(1, 12))) for _ in range(40)]
             for lay in layouts:
                 for op in ('get', 'put', 'copy'):
                     serial += 1
@@ -1049,7 +1140,7 @@ async def e2e(ctx, tmp, replay=None):
 
         # file objects over the wire: read / write / seek against a reference
         reset(short=True, salt=7)
-        n_fo = 30 if thorough else 10
+        n_fo = 120 if thorough else 10
         for k in range(n_fo):
             serial += 1
             name = 'o%d' % serial
@@ -1113,6 +1204,172 @@ async def e2e(ctx, tmp, replay=None):
             stats['parallel_copy'] = 'unavailable (private attribute missing): remote copies used copy-data only'
 
 
+# ---------------------------------------------------------------------------------------------
+# stage 5: the recursive copy driver (SFTPClient._copy / _begin_copy) over loopback, built-in server
+
+TREE_BS = 4096
+
+
+def build_tree(root, rng):
+    os.makedirs(os.path.join(root, 'sub', 'deep'))
+    os.makedirs(os.path.join(root, 'sub', 'emptydir'))
+    files = {'empty': 0, 'small': 10, 'blk_m1': TREE_BS - 1, 'blk': TREE_BS, 'blk_p1': TREE_BS + 1, 'two_blk': 2 * TREE_BS,
+             'big': 70000, 'sub/empty2': 0, 'sub/deep/f1': 3 * TREE_BS + 5, 'sub/mid': 5000}
+    for name, n in files.items():
+        with open(os.path.join(root, name), 'wb') as f:
+            f.write(gen_bytes(rng, n))
+    os.symlink('big', os.path.join(root, 'link_big'))
+    os.symlink('sub', os.path.join(root, 'link_dir'))
+    os.symlink('../small', os.path.join(root, 'sub', 'link_up'))
+    os.symlink('deep/f1', os.path.join(root, 'sub', 'link_f1'))
+
+
+def tree_snapshot(path, follow):
+    """rel path -> ('d',) | ('f', bytes) | ('l', target); symlinks resolved to what they point at when follow"""
+    out = {}
+
+    def rec(p, rel):
+        for name in sorted(os.listdir(p)):
+            q, r = os.path.join(p, name), (rel + '/' + name if rel else name)
+            if os.path.islink(q) and not follow:
+                out[r] = ('l', os.readlink(q))
+            elif os.path.isdir(q):
+                out[r] = ('d',)
+                rec(q, r)
+            else:
+                with open(q, 'rb') as f:
+                    out[r] = ('f', f.read())
+    rec(path, '')
+    return out
+
+
+def tree_diff(exp, got):
+    for k in sorted(set(exp) | set(got)):
+        a, b = exp.get(k), got.get(k)
+        if a != b:
+            def d(x):
+                return 'missing' if x is None else ('file of %d bytes' % len(x[1]) if x[0] == 'f' else
+                                                      'directory' if x[0] == 'd' else 'symlink to %r' % x[1])
+            return '%s: source has %s, destination has %s' % (k, d(a), d(b))
+    return None
+
+
+def walk_entries(root, follow):
+    """every entry the recursive driver visits below root: (path, lstat, stat)"""
+    out = []
+
+    def rec(p):
+        lst, st = os.lstat(p), os.stat(p)
+        out.append((p, lst, st))
+        import stat as S
+        eff = st if (follow and S.S_ISLNK(lst.st_mode)) else lst
+        if S.S_ISDIR(eff.st_mode):
+            for name in sorted(os.listdir(p)):
+                rec(os.path.join(p, name))
+    rec(root)
+    return out
+
+
+def ftype(st):
+    import stat as S
+    return 3 if S.S_ISLNK(st.st_mode) else 2 if S.S_ISDIR(st.st_mode) else 1
+
+
+async def e2e_tree(ctx, tmp, only=None):
+    import asyncssh
+    from asyncssh import sftp as sftp_mod
+    rng = random.Random(ctx.rng.getrandbits(64))
+    src = os.path.join(tmp, 'tree')
+    os.makedirs(src)
+    build_tree(src, rng)
+    listener, conn = await sshutil.loopback(srv_kw={'sftp_factory': True})
+    rec = {}
+    orig = getattr(sftp_mod, '_SFTPFileCopier', None)
+    if orig is not None:
+        class Recording(orig):
+            def __init__(self, *a, **k):
+                try:
+                    rec[bytes(a[6])] = int(a[2])
+                except Exception:      # signature changed: recording unavailable, the tree oracle still runs
+                    rec['unavailable'] = True
+                super().__init__(*a, **k)
+        sftp_mod._SFTPFileCopier = Recording
+    ok = raised = 0
+    cases = []
+    try:
+        sftp = await conn.start_sftp_client()
+        ops = ['get', 'put', 'copy', 'mget', 'mput', 'mcopy']
+        combos = [(op, fo, pr, sp) for op in ops for fo in (False, True) for pr in (False, True) for sp in (False, True)]
+        if only is not None:
+            combos = [tuple(only)]
+        elif ctx.tier != 'thorough':
+            # quick: every (op, follow_symlinks) pair, preserve/sparse alternating
+            combos = [c for k, c in enumerate(combos) if (c[2], c[3]) in (((False, True), (True, False)) if (k // 4) % 2 else
+                                                                           ((False, False), (True, True)))]
+        for k, (op, follow, preserve, sparse) in enumerate(combos):
+            dst = os.path.join(tmp, 'out%d' % k)
+            kw = dict(preserve=preserve, recurse=True, follow_symlinks=follow, sparse=sparse, block_size=TREE_BS,
+                      max_requests=rng.choice([1, 3, 16]))
+            rec.clear()
+            err = None
+            glob = op.startswith('m')
+            try:
+                if glob:
+                    os.makedirs(dst)
+                    pats = [src + '/*'] if k % 2 == 0 else [src + '/[a-r]*', src + '/s*', src + '/t*']
+                    await getattr(sftp, op)(pats, dst, **kw)
+                else:
+                    await getattr(sftp, op)(src, dst, **kw)
+            except (asyncssh.SFTPError, OSError) as e:
+                err = type(e).__name__
+            ctx.count('e2e.tree.%s.%s' % (op, 'raised' if err else 'ok'))
+            ctx.note_case(('tree', op, follow, preserve, sparse), nontrivial=True)
+            spec = {'op': op, 'follow_symlinks': follow, 'preserve': preserve, 'sparse': sparse}
+            if err:
+                raised += 1
+            else:
+                ok += 1
+                bad = tree_diff(tree_snapshot(src, follow), tree_snapshot(dst, False))
+                if bad:
+                    ctx.failing_input(f'{op} of a directory tree (recurse=True, follow_symlinks={follow}, preserve={preserve}, '
+                                      f'sparse={sparse}, block_size={TREE_BS}) returned normally but {bad}',
+                                      {'kind': 'e2e_tree', 'spec': [op, follow, preserve, sparse]})
+                # what total_bytes did each file copier get?
+                if orig is not None and 'unavailable' not in rec:
+                    for path, lst, st in walk_entries(src, follow):
+                        if glob and path == src:
+                            continue
+                        got = rec.get(path.encode())
+                        cases.append('(%s, (%d, %d), (%d, %d), %s)' % (cbool(follow), ftype(lst), lst.st_size, ftype(st), st.st_size,
+                                                                        core.copt(got, cz)))
+            shutil.rmtree(dst, ignore_errors=True)
+    finally:
+        if orig is not None:
+            sftp_mod._SFTPFileCopier = orig
+        conn.close()
+        listener.close()
+        await listener.wait_closed()
+    ctx.cov['oracle']['e2e_tree'] = {'runs_ok': ok, 'runs_raised': raised,
+                                     'total_bytes_cases': len(cases) if orig is not None else 'unavailable'}
+    if only is None:
+        ctx.sample({'e2e_tree': {'ops': 'get/put/copy -r, mget/mput/mcopy with glob patterns', 'tree': sorted(tree_snapshot(src, False))}})
+        if ok < max(4, len(combos) // 2):
+            ctx.broke('vacuity:e2e-tree', f'only {ok} of {len(combos)} recursive transfers returned normally')
+    return cases
+
+
+def stage_tree(ctx, only=None):
+    tmp = os.path.realpath(tempfile.mkdtemp(prefix='c12t-', dir='/var/tmp'))
+    try:
+        cases = sshutil.run(e2e_tree(ctx, tmp, only))
+    finally:
+        shutil.rmtree(tmp, ignore_errors=True)
+    if only is None and cases:
+        bad = ctx.coq_cases('copy_total', IMPORTS, 'chk_copy_total', cases, ty='bool * (Z * Z) * (Z * Z) * option Z')
+        if bad:
+            ctx.broke('correspondence:copy_total', f'{len(bad)} of {len(cases)} differ; first: {cases[bad[0]]}')
+
+
 def stage_e2e(ctx, replay=None):
     tmp = os.path.realpath(tempfile.mkdtemp(prefix='c12e-', dir='/var/tmp'))
     try:
@@ -1130,8 +1387,12 @@ def run(ctx):
         'outstanding request to complete (fifo/lifo/random) with a full, 1-byte, half or random short count, EOF at/after '
         'the end, an injected block error (SFTPFailure/OSError, read or write side) or a malformed reply (zero-length, '
         'over-long, premature EOF, wrong bytes); sparse layouts of up to 4 data extents with leading/middle/trailing holes; '
-        'file-object operation sequences (read/write/seek/tell, append or not). A case is non-trivial when its schedule has '
-        '>= 2 completions (>= 3 operations for file objects); distinct = distinct (geometry, schedule shape) tuples')
+        'file-object operation sequences (read/write/seek/tell, append or not); plus every schedule (all completion orders x '
+        'all short counts) of a few small read/copy configurations (coverage.exhaustive says which were enumerated '
+        'completely); end to end: get/put/copy/file objects over loopback against an SFTPServer subclass that shortens '
+        'reads, fails a chosen block or ends the file early, with client-side reply jitter, and real sparse files. A case '
+        'is non-trivial when its schedule has >= 2 completions (>= 3 operations for file objects); distinct = distinct '
+        '(geometry, schedule shape) tuples')
     ctx.cov['trusted_base'] += [
         'asyncio is modelled as run-to-suspension with adversarial completion batches (Model/SftpIO.v); the harness '
         'completes one future per step and lets the loop settle (16 turns), which the correspondence check validates',
@@ -1143,15 +1404,21 @@ def run(ctx):
         'correspondence against a fake file object implementing POSIX seek; real holes only in the end-to-end stage',
         'zero-length non-EOF replies and replies longer than requested are outside the theorems (hypothesis 1<=c<=size); '
         'the model is still compared with the code on them',
+        'termination (every honest schedule ends after at most size completions) is observed (no case may get stuck) '
+        'but not proved',
+        'the copier correspondence accepts either the snapshot model or the repaired-sparse-copy model (c_fix) and '
+        'records which one the code matches in coverage.oracle.copier_variant',
     ]
     ctx.prove()
     th = ctx.tier == 'thorough'
-    stage_reader(ctx, 2200 if th else 320)
-    stage_writer(ctx, 900 if th else 140)
-    stage_copier(ctx, 2200 if th else 320)
-    stage_ranges(ctx, 900 if th else 150)
-    stage_fileobj(ctx, 1500 if th else 220)
+    stage_reader(ctx, 9000 if th else 320)
+    stage_writer(ctx, 3000 if th else 140)
+    stage_copier(ctx, 9000 if th else 320)
+    stage_exhaustive(ctx, 6000 if th else 120)
+    stage_ranges(ctx, 3000 if th else 150)
+    stage_fileobj(ctx, 6000 if th else 220)
     stage_e2e(ctx)
+    stage_tree(ctx)
 
 
 def replay(rp):
@@ -1188,7 +1455,7 @@ def replay(rp):
             got, _ = sshutil.run(real_client_ranges(ext, rp['size'], rp['K']))
             full = sshutil.run(D.real_request_ranges(ext, rp['size'], 0, rp['size']))
             bad = None if got == full else f'{got} vs {full}'
-    elif kind in ('e2e_sparse', 'e2e_transfer', 'e2e_fileobj'):
+    elif kind in ('e2e_sparse', 'e2e_transfer', 'e2e_fileobj', 'e2e_tree'):
         bad = replay_e2e(rp)
     else:
         print('unknown replay kind', kind)
@@ -1225,6 +1492,9 @@ def replay_e2e(rp):
         return out.get('bad')
     if rp['kind'] == 'e2e_sparse':
         return sshutil.run(replay_sparse(rp))
+    if rp['kind'] == 'e2e_tree':
+        stage_tree(ctx, only=rp['spec'])
+        return out.get('bad')
     print('replay of kind', rp['kind'], 'needs the full stage; run ./check C12')
     return None
 
